@@ -623,7 +623,9 @@ def run(ctx):
         if changed4:
             expect.append(("corrupted value in the response of the repetition", v4, "RepeatClean"))
         stuck_before = STUCK["n"]
+        STUCK["n"] = 0
         for i, (what, tr, want) in enumerate(expect):
+            STUCK["n"] = 0
             got = {p[1] for p in validate_batch(ctx, 9000 + i, tr, [demo["id"]] * len(tr))}
             if want not in got:
                 raise lib.Inconclusive("binding demonstration failed: %s was not rejected with %s (got %s)" % (what, want, sorted(got)))
